@@ -39,6 +39,42 @@ pub enum Constraint {
 }
 
 impl Constraint {
+    /// Returns the type of integer that should be used in a representation when applying
+    /// the serially applied `constraints`: the most restrictive of the types of the single
+    /// constraints, unless the last constraint is extensible (X.680 50.8: the last of the
+    /// serial constraints decides whether the resulting type is extensible).
+    pub fn integer_type_of(constraints: &[Constraint]) -> IntegerType {
+        if matches!(constraints.last(), Some(c) if c.is_extensible()) {
+            return IntegerType::Unbounded;
+        }
+        constraints.iter().fold(IntegerType::Unbounded, |acc, c| {
+            c.integer_constraints().max_restrictive(acc)
+        })
+    }
+
+    /// Whether the constraint carries an extension marker, on the element set as a whole
+    /// or on its only element.
+    pub fn is_extensible(&self) -> bool {
+        match self {
+            Constraint::Subtype(set) => {
+                set.extensible
+                    || matches!(
+                        &set.set,
+                        ElementOrSetOperation::Element(
+                            SubtypeElements::ValueRange {
+                                extensible: true,
+                                ..
+                            } | SubtypeElements::SingleValue {
+                                extensible: true,
+                                ..
+                            }
+                        )
+                    )
+            }
+            _ => false,
+        }
+    }
+
     /// Returns the type of integer that should be used in a representation when applying the
     /// GeneralConstraint.
     pub fn integer_constraints(&self) -> IntegerType {
